@@ -188,6 +188,24 @@ TrTl ==
                /\ UNCHANGED dead
   /\ UNCHANGED <<lay, names, epoch, since, last, ref, refi, var, owner, xvars>>
 
+\* a whole dispatcher registered as a thread-local system of another one (impl RunNow for Dispatcher)
+TrNest ==
+  /\ Is("nest")
+  /\ IF dead THEN UNCHANGED <<dead, tls, regs, pos, ok, owner>>
+     ELSE LET e == Ev  b == e.b IN
+          IF e.id # Len(regs) + 1 \/ b \notin DOMAIN lay \/ e.inner \notin DOMAIN lay \/ e.out # "ok" \/ e.nnew # 1 \/ e.idx = <<>> THEN
+             dead' = TRUE /\ UNCHANGED <<tls, regs, pos, ok, owner>>
+          ELSE LET inner == Members(e.inner) IN
+               /\ regs' = Append(regs, [NoReg(e, "nest") EXCEPT !.r = UNION {regs[x].r : x \in inner},
+                                                               !.w = UNION {regs[x].w : x \in inner},
+                                                               !.inner = e.inner, !.n = 1])
+               /\ pos' = Append(pos, <<0, 0, 0>>)
+               /\ tls' = [tls EXCEPT ![b] = Append(@, e.id)]
+               /\ owner' = [owner EXCEPT ![e.inner] = e.id]
+               /\ ok' = [ok EXCEPT !.c12s = @ /\ e.idx[1] = Len(tls[b]) + 1]
+               /\ UNCHANGED dead
+  /\ UNCHANGED <<lay, names, epoch, since, last, ref, refi, var, xvars>>
+
 NameOf(b) == [s \in Placed(lay[b]) |-> regs[s].nm]
 
 TrPrint ==
@@ -209,6 +227,15 @@ TrBuilt ==
                    !.c19 = @ /\ (var = 0 \/ refi = Len(ref))]
   /\ UNCHANGED <<pvars, xvars>>
 
+\* try_into_sendable: succeeds exactly when there is no thread-local system, and in both
+\* outcomes the plan is the builder's (C12, last sentence)
+TrSendable ==
+  /\ Is("sendable")
+  /\ IF dead THEN UNCHANGED ok
+     ELSE LET e == Ev IN
+          ok' = [ok EXCEPT !.c12s = @ /\ (e.ok <=> tls[e.b] = <<>>) /\ e.lay = lay[e.b] /\ e.tl = tls[e.b]]
+  /\ UNCHANGED <<pvars, xvars>>
+
 (***************************************************************************)
 (* EXECUTION                                                               *)
 (***************************************************************************)
@@ -221,7 +248,7 @@ Expected(s, mode) ==
   LET b == regs[s].b IN
   IF regs[s].kind = "rejected" THEN 0
   ELSE IF IsTop(b) THEN
-     IF regs[s].kind = "tl" THEN (IF mode \in {"disp", "tlonly", "async"} THEN 1 ELSE 0)
+     IF regs[s].kind \in {"tl", "nest"} THEN (IF mode \in {"disp", "tlonly", "async"} THEN 1 ELSE 0)
      ELSE (IF mode = "tlonly" THEN 0 ELSE 1)
   ELSE regs[owner[b]].n * Expected(owner[b], mode)   \* inner dispatches are full dispatches
 
@@ -233,7 +260,7 @@ RunBuilder(b, mode, wd) ==
 RunList(q, wd) == IF q = <<>> THEN wd ELSE RunList(Tail(q), RunOne(Head(q), wd))
 RunOne(s, wd) ==
   LET w1 == StepW(s, regs[s].rs, regs[s].ws, wd) IN
-  IF regs[s].kind = "batch" THEN Iter(regs[s].n, regs[s].inner, w1) ELSE w1
+  IF regs[s].kind \in {"batch", "nest"} THEN Iter(regs[s].n, regs[s].inner, w1) ELSE w1
 Iter(k, b, wd) == IF k = 0 THEN wd ELSE Iter(k - 1, b, RunBuilder(b, "disp", wd))
 
 WorldOf(e) == [r \in ToSet(e.rid) |-> e.val[CHOOSE i \in DOMAIN e.rid : e.rid[i] = r]]
@@ -290,13 +317,13 @@ TrFetch ==
                 \* previous one is complete; thread-local systems run only inside wait()
                 !.c15 = @ /\ (ar => /\ asy.issued > asy.started
                                      /\ \A x \in PlainOf(b) : st[x] = (IF asy.started = 0 THEN "idle" ELSE "done"))
-                          /\ ((dsp[b].mode = "async" /\ k = "tl") => asy.incall = "wait"),
+                          /\ ((dsp[b].mode = "async" /\ k \in {"tl", "nest"}) => asy.incall = "wait"),
                 \* C04: a system starts only from idle, inside a dispatch of its dispatcher
                 !.c04 = @ /\ st0[s] = "idle" /\ dsp0[b].on /\ Expected(s, dsp0[b].mode) > 0,
                 \* C12: thread-local systems run on the thread that called dispatch - never
                 \* on a pool worker -, after every other system of that dispatch, one at a
                 \* time in registration order
-                !.c12 = @ /\ (k = "tl" =>
+                !.c12 = @ /\ (k \in {"tl", "nest"} =>
                                /\ e.th = dsp0[b].th
                                /\ e.th = 0
                                /\ (\A m \in Members(b) : (regs[m].kind \in {"plain", "batch"} /\ Expected(m, dsp0[b].mode) > 0)
@@ -322,7 +349,7 @@ TrFinish ==
   /\ Is("finish")
   /\ IF dead \/ Ev.s \notin Sys THEN UNCHANGED <<ok, xvars>>
      ELSE LET e == Ev  s == e.s
-              w1 == IF regs[s].kind = "batch" THEN world ELSE StepW(s, regs[s].rs, regs[s].ws, world)
+              w1 == IF regs[s].kind \in {"batch", "nest"} THEN world ELSE StepW(s, regs[s].rs, regs[s].ws, world)
               X == Done(XNow, s) IN
           /\ st' = X.st /\ runs' = X.runs /\ dsp' = X.dsp
           /\ world' = w1
@@ -331,9 +358,9 @@ TrFinish ==
                 !.c04 = @ /\ st[s] = "run",
                 \* C05: what the system wrote is a function of what it declared to read,
                 \* evaluated on the spec's world (nobody else may have touched it meanwhile)
-                !.c05 = @ /\ (regs[s].kind # "batch" => e.nv = [i \in DOMAIN regs[s].ws |-> w1[regs[s].ws[i]]]),
+                !.c05 = @ /\ (regs[s].kind \notin {"batch", "nest"} => e.nv = [i \in DOMAIN regs[s].ws |-> w1[regs[s].ws[i]]]),
                 \* C07: the batch ends only when its inner dispatch has ended
-                !.c07 = @ /\ (regs[s].kind = "batch" => ~dsp[regs[s].inner].on)]
+                !.c07 = @ /\ (regs[s].kind \in {"batch", "nest"} => ~dsp[regs[s].inner].on)]
   /\ UNCHANGED pvars
 
 \* MultiDispatcher: the controller planned n inner dispatches
@@ -486,7 +513,10 @@ TrACall ==
           ELSE
              /\ asy' = [asy EXCEPT !.incall = "none", !.waits = IF e.op = "wait" THEN @ + 1 ELSE @]
              /\ UNCHANGED <<st, runs, dsp, world, w0, nset, ndis>>
-             /\ ok' = [ok EXCEPT !.c15 = @ /\ e.out = "ok" /\
+             /\ ok' = [ok EXCEPT
+                  \* C12: wait() runs every thread-local system (exactly once per wait)
+                  !.c12 = @ /\ (e.op = "wait" => \A x \in ToSet(tls[TopB]) : st[x] = "done" /\ runs[x] = asy.waits + 1),
+                  !.c15 = @ /\ e.out = "ok" /\
                   CASE e.op = "running" ->
                          \* true while anything runs; false only once everything has finished
                          /\ ((\E x \in Sys : st[x] = "run") => e.ret)
@@ -499,14 +529,14 @@ TrACall ==
                     [] OTHER -> TRUE]
   /\ UNCHANGED pvars
 
-Known == {"reset", "new", "add", "batch", "barrier", "tl", "print", "built",
+Known == {"reset", "new", "add", "batch", "barrier", "tl", "nest", "print", "built", "sendable",
           "world0", "begin", "fetch", "finish", "ctl", "multi", "panic", "end",
           "presetup", "setupcall", "setup", "disposecall", "dispose", "abegin", "acall"}
 TrSkip ==
   /\ l <= Len(Rec) /\ Ev.ev \notin Known /\ l' = l + 1
   /\ UNCHANGED <<pvars, ok, xvars>>
 
-Next == \/ TrReset \/ TrNew \/ TrAdd \/ TrBarrier \/ TrTl \/ TrPrint \/ TrBuilt
+Next == \/ TrReset \/ TrNew \/ TrAdd \/ TrBarrier \/ TrTl \/ TrNest \/ TrPrint \/ TrBuilt \/ TrSendable
         \/ TrWorld0 \/ TrBegin \/ TrFetch \/ TrFinish \/ TrCtl \/ TrMulti \/ TrPanic \/ TrEnd
         \/ TrPreSetup \/ TrSetupCall \/ TrSetup \/ TrDisposeCall \/ TrDispose \/ TrABegin \/ TrACall \/ TrSkip
 Spec == Init /\ [][Next]_vars
